@@ -102,7 +102,10 @@ func decodeWithContext(
 		return nil
 	}
 	// Convert the k/v pairs.
-	var b *logtags.Buffer
+	// Start from an empty, non-nil buffer: the accessors below call
+	// (*logtags.Buffer).Get(), which is not nil-safe, and a payload
+	// can carry redacted strings without any tag.
+	b := &logtags.Buffer{}
 	for _, t := range m.Tags {
 		b = b.Add(t.Tag, t.Value)
 	}
